@@ -109,7 +109,7 @@ def gen_history(rng: Rng, universe, faulty=True):
     ops = []
     n_fc = n_cfg = n_b = 0
     for _ in range(rng.between(4, 16)):
-        kind = rng.weighted([(3, 'parse'), (4, 'mkcfg'), (8, 'build'), (1, 'support'), (1, 'newbuilder')])
+        kind = rng.weighted([(3, 'parse'), (4, 'mkcfg'), (8, 'build'), (1, 'support'), (1, 'newbuilder'), (2, 'edit')])
         if kind == 'parse' or n_fc == 0:
             ops.append(['parse', rng.below(len(universe['docs']))])
             n_fc += 1
@@ -121,6 +121,8 @@ def gen_history(rng: Rng, universe, faulty=True):
             ops.append(['build', rng.below(n_b + 1) - 1, rng.below(n_cfg), crash])
         elif kind == 'support':
             ops.append(['support', rng.below(len(PREFIXES))])
+        elif kind == 'edit':
+            ops.append(['edit', rng.below(n_cfg), rng.below(12)])
         else:
             ops.append(['newbuilder'])
             n_b += 1
@@ -177,6 +179,27 @@ class Machine:
                 self._count('configuration_rejected_at_construction')
             else:
                 self.cfgs.append([cfg, di, ci, json.dumps(snapshot(cfg), sort_keys=True), None])
+        elif kind == 'edit':
+            # the user changes a Configuration object IN PLACE (it is an ordinary mutable dataclass) so that it now says
+            # what another configuration spec of the same document says; later builds must follow the edited object
+            if not self.cfgs:
+                return
+            ent = self.cfgs[op[1] % len(self.cfgs)]
+            if ent[0] is None:
+                return
+            di = ent[1]
+            cfgs = self.universe['docs'][di]['cfgspecs']
+            ci = op[2] % len(cfgs)
+            try:
+                fresh = cfggen.build_configuration(cfgs[ci], ent[0].ast_fc)
+            except Exception:  # pylint: disable=broad-except
+                return
+            for field in ('dezyne_filename', 'output_basename_suffix', 'fqn_encapsulee_name', 'ports_cfg', 'facilities_origin',
+                          'copyright', 'support_files_ns_prefix', 'creator_info', 'verbose'):
+                setattr(ent[0], field, getattr(fresh, field))
+            ent[2] = ci
+            ent[3] = json.dumps(snapshot(ent[0]), sort_keys=True)
+            self._count('configuration_edited_in_place')
         elif kind == 'newbuilder':
             self.builders.append(self.Builder())
         elif kind == 'build':
